@@ -81,6 +81,7 @@ def check_complex_kernel_endpoints(run, ix):
     the caller's precision, and passes a value through unchanged only if it is special or both parts are zero."""
     LIBMPI = 'mpmath/libmp/libmpi.py'
     run.rule('C-R14c', floor=8, desc='rectangle endpoints from complex kernels go through mpc_outward')
+    run.rule('C-R22', floor=2, desc='mpc_outward claims no bound from an infinite or undefined part')
     run.rule('C-R19c', floor=4, desc='mpc_outward moves the part outward by an allowance relative to the modulus')
     for f in ix.module(LIBMPI).funcs.values():
         if not f.name.startswith('mpci_'):
@@ -168,17 +169,50 @@ def check_complex_kernel_endpoints(run, ix):
         run.fail(Finding('C-R19c', LIBMPI, 'mpc_outward', norm(rets[-1]) if rets else 'def mpc_outward',
                          'the part is not moved as `mpf_sub(x, delta, prec, round_floor)` under `rounding == round_floor` '
                          'and `mpf_add(x, delta, prec, round_ceiling)` otherwise', line=h.lineno))
+    # C-R22: returns that do not widen.  A part that is inf or nan (the kernel at a corner at infinity gives nan) is no
+    # bound: the only sound answer is -inf for the lower and +inf for the upper bound.  `return x` is accepted only for a
+    # value with no non-zero part, below a test for special parts that has already answered with the unbounded bound.
+    import re as _re
+    special = _re.compile(r'not\w+\[1\]and\w+\[2\]')
+
+    def _dir_ok(r):
+        """`return fninf` stands in the body of `if rounding == round_floor`, `return finf` does not"""
+        val = norm(r.value)
+        p_ = r
+        in_floor = False
+        while p_ is not h.node:
+            par_ = p_._parent
+            if isinstance(par_, ast.If) and norm(par_.test) == '%s == round_floor' % P[3] and any(p_ is b for b in par_.body):
+                in_floor = True
+            p_ = par_
+        return (val == 'fninf' and in_floor) or (val == 'finf' and not in_floor)
+
+    guards = [i for i in _walk_own(h.node) if isinstance(i, ast.If) and special.search(norm(i.test).replace(' ', ''))]
+    sound_guard = None
+    for gi in guards:
+        grets = [r for b in gi.body for r in ast.walk(b) if isinstance(r, ast.Return)]
+        if grets and all(norm(r.value) in ('fninf', 'finf') and _dir_ok(r) for r in grets) and \
+                isinstance(gi.body[-1], (ast.Return, ast.If)):
+            sound_guard = gi
     for r in rets:
         if r in down or r in up:
             continue
         par = r._parent
+        if norm(r.value) in ('fninf', 'finf'):
+            if _dir_ok(r):
+                run.ok('C-R22', '`%s` in the %s direction: no bound claimed' % (norm(r), 'floor' if norm(r.value) == 'fninf' else 'ceiling'))
+            else:
+                run.fail(Finding('C-R22', LIBMPI, 'mpc_outward', norm(r), 'an infinite bound in the wrong direction: the '
+                                 'lower bound must be -inf (under `%s == round_floor`) and the upper +inf' % P[3], line=r.lineno))
+            continue
         t = norm(par.test).replace(' ', '') if isinstance(par, ast.If) else ''
-        allowed = {'notmags', '(not%s[1]and%s[2])' % (xn, xn), 'not%s[1]and%s[2]' % (xn, xn)}
-        parts = set(norm(v_).replace(' ', '') for v_ in (par.test.values if isinstance(par, ast.If) and
-                    isinstance(par.test, ast.BoolOp) and isinstance(par.test.op, ast.Or) else
-                    ([par.test] if isinstance(par, ast.If) else [])))
-        if norm(r.value) == xn and parts and parts <= allowed:
-            run.ok('C-R19c', 'pass-through only for a special part or a value with no non-zero part: `if %s`' % norm(par.test, 50))
+        if norm(r.value) == xn and t == 'notmags' and sound_guard is not None and sound_guard.lineno < r.lineno:
+            run.ok('C-R19c', 'pass-through only for a value with no non-zero part, special parts excluded before: `if %s`' % norm(par.test, 50))
+        elif norm(r.value) == xn and (special.search(t) or t == 'notmags'):
+            run.fail(Finding('C-R22', LIBMPI, 'mpc_outward', norm(r), 'a part that is inf or nan is handed back as a bound '
+                             '(under `%s`): the kernel gives nan at a corner at infinity, and iv.gamma(iv.mpc([2, 3], '
+                             '[-inf, -1])) became [0, 1.65] + [0, 0]j, which misses gamma(2-1j) = 0.653 - 0.343j; '
+                             'iv.loggamma of an unbounded rectangle had nan endpoints' % norm(par.test, 60), line=r.lineno))
         else:
             run.fail(Finding('C-R19c', LIBMPI, 'mpc_outward', norm(r), 'the part is handed back without widening under '
                              '`%s`' % (norm(par.test, 60) if isinstance(par, ast.If) else 'no condition'), line=r.lineno))
